@@ -7,6 +7,7 @@ package main
 import (
 	"encoding/json"
 	"bytes"
+	"encoding/xml"
 	"fmt"
 	"strings"
 
@@ -202,9 +203,125 @@ func c03IndentExec(op string) string {
 	return "ok " + encStr(string(b)) + " | " + note
 }
 
+// tokBalanced: the stack check of Mxj.EncTok.balanced (lean/Mxj/Model/Balanced.lean) on the raw
+// tokens of encoding/xml: start/end tags properly nested with matching (prefix, local) names,
+// exactly one root element, character data only inside it; comments, processing instructions
+// and directives anywhere.
+func tokBalanced(toks []xml.Token) bool {
+	var st []xml.Name
+	roots := 0
+	for _, t := range toks {
+		switch x := t.(type) {
+		case xml.StartElement:
+			if len(st) == 0 {
+				if roots != 0 {
+					return false
+				}
+				roots++
+			}
+			st = append(st, x.Name)
+		case xml.EndElement:
+			if len(st) == 0 || st[len(st)-1] != x.Name {
+				return false
+			}
+			st = st[:len(st)-1]
+		case xml.CharData:
+			if len(st) == 0 {
+				return false
+			}
+		}
+	}
+	return len(st) == 0 && roots == 1
+}
+
+// xenct (same arguments as xenc): the compact encoder's bytes, the tokens encoding/xml reads
+// from them and the stack check on those tokens; the model answers with its own bytes, the
+// tokenizer model's tokens and the verdict of `balanced` (C03_tok_well_formed at work).
+func c03TokExec(op string) string {
+	c, _ := newCur(op)
+	ap := c.str()
+	c.str()
+	esc := c.boolean()
+	goEmpty := c.boolean()
+	api := c.nat()
+	v := c.val()
+	rt := c.str()
+	et := c.str()
+	if c.err != nil {
+		return "bad-op " + c.err.Error()
+	}
+	mxj.SetAttrPrefix(ap)
+	imgPrefix = ap
+	defer func() { imgPrefix = "-" }()
+	mxj.XMLEscapeChars(esc)
+	if goEmpty {
+		mxj.XmlGoEmptyElemSyntax()
+	}
+	var b []byte
+	var err error
+	switch api {
+	case 0:
+		b, err = mxj.Map(v.(map[string]interface{})).Xml()
+	case 1:
+		b, err = mxj.Map(v.(map[string]interface{})).Xml(rt)
+	case 2:
+		b, err = mxj.AnyXml(v, rt, et)
+	case 3:
+		b, err = mxj.AnyXml(v)
+		rt, et = "doc", "element"
+	}
+	if err != nil {
+		return "err"
+	}
+	r := refTokens(b)
+	if strings.HasPrefix(r, "tokskip") {
+		return r
+	}
+	bal := "x"
+	if r != "tok err" {
+		raw, _ := allTokens(b, true)
+		bal = fmt.Sprint(b2i(tokBalanced(raw)))
+	}
+	note := ""
+	if imageDoc(api, v, rt, et) != nil && bal != "1" {
+		note = "TOKBAL the encoder's output is not a balanced single-root token stream (bal " + bal + "): " + clip(string(b), 200)
+	}
+	return "ok " + encStr(string(b)) + " | " + r + " | bal " + bal + " ;; " + note
+}
+
+func c03TokJudge(op, impl, model string) Verdict {
+	v := Verdict{Tags: []string{"xenct"}}
+	if strings.HasPrefix(model, "skip-") || strings.HasPrefix(impl, "tokskip") {
+		v.Skipped, v.CorrOK = true, true
+		v.Tags = append(v.Tags, "xenct:skip")
+		return v
+	}
+	if strings.HasPrefix(impl, "panic") {
+		v.OracleFail = "encoder panicked: " + impl
+		v.Sig = "xenct:panic"
+		return v
+	}
+	ip := strings.SplitN(impl, " ;; ", 2)
+	v.CorrOK = strings.TrimSpace(ip[0]) == model
+	v.Nontrivial = strings.HasPrefix(impl, "ok")
+	if strings.HasSuffix(strings.TrimSpace(ip[0]), "| bal 1") {
+		v.Tags = append(v.Tags, "xenct:balanced")
+	} else if v.Nontrivial {
+		v.Tags = append(v.Tags, "xenct:unbalanced")
+	}
+	if len(ip) > 1 && strings.TrimSpace(ip[1]) != "" {
+		v.OracleFail = ip[1]
+		v.Sig = "xenct:TOKBAL"
+	}
+	return v
+}
+
 func c03Exec(op string) string {
 	if strings.HasPrefix(op, "xenci ") {
 		return c03IndentExec(op)
+	}
+	if strings.HasPrefix(op, "xenct ") {
+		return c03TokExec(op)
 	}
 	c, _ := newCur(op)
 	ap := c.str()
@@ -385,6 +502,9 @@ func c03Describe(op string) string {
 }
 
 func c03Judge(op, impl, model string) Verdict {
+	if strings.HasPrefix(op, "xenct ") {
+		return c03TokJudge(op, impl, model)
+	}
 	v := Verdict{Tags: []string{"xenc"}}
 	if strings.HasPrefix(model, "skip-") {
 		v.Skipped, v.CorrOK = true, true
@@ -542,7 +662,12 @@ func c03Gen(r *Rng, n int) []string {
 			ap = r.Pick([]string{"_", "__", "attr", "@"})
 			v = rePrefix(v, ap, r.P(40) && ap != "@")
 		}
-		ops = append(ops, fmt.Sprintf("xenc %s %s 1 %d %d %s %s %s", encStr(ap), encStr("#text"), b2i(goEmpty), api, enc(v), encStr(r.Pick([]string{"root", "doc", "r"})), encStr(r.Pick([]string{"element", "e", "item"}))))
+		args := fmt.Sprintf("%s %s 1 %d %d %s %s %s", encStr(ap), encStr("#text"), b2i(goEmpty), api, enc(v), encStr(r.Pick([]string{"root", "doc", "r"})), encStr(r.Pick([]string{"element", "e", "item"})))
+		ops = append(ops, "xenc "+args)
+		// the same call through the tokenizer: bytes, tokens and the balanced check, both sides
+		if len(ops) < n && r.P(35) {
+			ops = append(ops, "xenct "+args)
+		}
 	}
 	return ops
 }
@@ -550,7 +675,7 @@ func c03Gen(r *Rng, n int) []string {
 func init() {
 	register(&Prop{
 		ID:        "C03",
-		Rule:      "JSON-shaped values of depth <= 4: maps with valid XML names, '-' attribute entries with scalar values, '#text' entries, lists of scalars / maps / mixed / nested / empty, nulls, numbers, booleans, strings with XML special characters; four entry points (Map.Xml, Map.Xml(root), AnyXml with and without tags) each also through its indented form; escaping on; non-trivial = encoding succeeded; distinct = distinct op lines",
+		Rule:      "JSON-shaped values of depth <= 4: maps with valid XML names, '-' attribute entries with scalar values, '#text' entries, lists of scalars / maps / mixed / nested / empty, nulls, numbers, booleans, strings with XML special characters; four entry points (Map.Xml, Map.Xml(root), AnyXml with and without tags) each also through its indented form; about a quarter of the calls again as xenct: the compact bytes tokenized by encoding/xml and by the tokenizer model, token by token, with the balanced-stream check (nested matching tags, one root) on both sides; escaping on; non-trivial = encoding succeeded; distinct = distinct op lines",
 		Gen:       c03Gen,
 		Exec:      c03Exec,
 		Judge:     c03Judge,
